@@ -160,6 +160,19 @@ def run(ctx):
                 pl = st[1]
                 if pl[1] and any(isinstance(p, list) and p[0] == "f" and p[2] == "next_object_id" for p in pl[1]):
                     stores.append(b)
+        # ... or a call of a helper that stores a value depending on its parameter into next_object_id, handed a run-time value
+        for b, c, a, d, t, u in fn.calls():
+            f2 = facts.fns.get(c.get("r")) if isinstance(c, dict) else None
+            if f2 is None or f2.id == W + "allocate_object_id" or not f2.id.startswith(W):
+                continue
+            fl2 = FL.flow(f2)
+            for b2, blk2 in enumerate(f2.blocks):
+                for st2 in blk2[0]:
+                    pl2 = st2[1]
+                    if pl2[1] and any(isinstance(p, list) and p[0] == "f" and p[2] == "next_object_id" for p in pl2[1]):
+                        seen2, _ = fl2.back_slice([l for o in FL.rvalue_operands(st2[2]) for l in FL.op_locals(o)])
+                        if any(2 <= x <= f2.nargs for x in seen2) and any(o[0] != "k" for o in a[1:]):
+                            stores.append(b)
         key = "%s:next_object_id-seeded-from-base" % name
         if not allocs:
             ctx.undecided_site("R3", key, "no direct allocation in this entry point", fn.where())
